@@ -6,6 +6,7 @@ W  i128_shifted_div_rounded / i128_mul_div_ten_pow_rounded = RoundSpec(mode, N/D
 U  u128_mul_u128, u256_idiv_u64 and the dispatch in u256_idiv_u128 are proved against the summaries (U) used for S and W;
    u256_idiv_u128_special (Knuth D) is proved per normalisation shift against the summary U' the dispatch proof uses.
 """
+import re
 from ..absint import Interp, Opts, Agg, Int, K, OPTION, NEG, ZERO, POS, NONNEG, NONPOS
 from ..harness import (M, show_outcome, show_poly, get_db, run_jobs, opt_parts, poly_eq)
 from ..db import span_str
@@ -13,6 +14,7 @@ from ..poly import padd, pscale, pconst, pmul, pneg, pfreeze
 from .. import rounding, mir
 from ..rounding import MODES, check_rounded, round_inc, Undecided, mode_names, u_summaries
 from .c05 import mode_arg, core_fn, CORE, MIN, MAX
+from .. import roles
 
 SIGNS = {'neg': (MIN, -1), 'zero': (0, 0), 'pos': (1, M)}
 TWO127 = 2**127
@@ -159,7 +161,6 @@ def job_wide_rounded(db, job):
     return [('W-WIDE-ROUNDED', cell, not bad, '; '.join(bad[:3]) or 'paths=%d' % len(outs), span_str(fn.get('span')) if bad else None)]
 
 
-SPECIAL = 'fpdec_core::u256_idiv_u128_special'
 TWO128 = 2**128
 
 
@@ -188,7 +189,7 @@ def job_kernel(db, job):
     _, which, ycls = job
     bad = []
     if which == 'mul':
-        fn = core_fn(db, 'fpdec_core::u128_mul_u128')
+        fn = roles.fn(db, 'MUL')
         I = Interp(db, Opts())
         st = I.new_state()
         x, y = st.sym('x', 0, TWO128 - 1, 'u128'), st.sym('y', 0, TWO128 - 1, 'u128')
@@ -209,7 +210,7 @@ def job_kernel(db, job):
         # monomials by an exact dual simplex) - every one a sound inference; no position-dependent hint is supplied.
         from ..poly import patoms
         n = ycls
-        fn = core_fn(db, SPECIAL)
+        fn = roles.fn(db, 'SPECIAL')
         I = Interp(db, Opts(max_paths=4000))
         st = I.new_state()
         st.decomp_depth = 1
@@ -240,12 +241,12 @@ def job_kernel(db, job):
         ycls = 'n=%d' % n
     else:
         if which == 'div64':
-            fn = core_fn(db, 'fpdec_core::u256_idiv_u64')
+            fn = roles.fn(db, 'DIV64')
             opts = Opts()
             yr = (1, 2**64 - 1, 'u64')
         else:
-            fn = core_fn(db, 'fpdec_core::u256_idiv_u128')
-            opts = Opts(summaries={SPECIAL: summ_special})
+            fn = roles.fn(db, 'DIV')
+            opts = Opts(summaries={roles.resolve(db, 'SPECIAL'): summ_special})
             yr = {'short': (1, 2**64 - 1, 'u128'), 'long': (2**64, TWO128 - 1, 'u128')}[ycls]
         I = Interp(db, opts)
         st = I.new_state()
@@ -318,17 +319,16 @@ def run(rep, tier):
     rep.floor('S-WIDE-FLOOR', 6 * len(ps) + 9)
     rep.floor('W-WIDE-ROUNDED', 16 * len(wps) * 6)
     # who may call the unsigned kernels (their contracts' preconditions are established at exactly these call sites)
-    may_call = {'fpdec_core::u128_mul_u128': ('fpdec_core::i128_shifted_div_mod_floor', 'fpdec_core::i256_div_mod_floor'),
-                'fpdec_core::u256_idiv_u128': ('fpdec_core::i128_shifted_div_mod_floor', 'fpdec_core::i256_div_mod_floor'),
-                'fpdec_core::u256_idiv_u64': ('fpdec_core::u256_idiv_u128',),
-                SPECIAL: ('fpdec_core::u256_idiv_u128',)}
+    W = ('fpdec_core::i128_shifted_div_mod_floor', 'fpdec_core::i256_div_mod_floor')
+    DIV = roles.resolve(db, 'DIV')
+    may_call = {roles.resolve(db, 'MUL'): W, DIV: W, roles.resolve(db, 'DIV64'): (DIV,), roles.resolve(db, 'SPECIAL'): (DIV,)}
     for f in db.fns.values():
         ordn = {}
         for bi, t, blk in mir.iter_calls(f):
             fid, path, _ = mir.callee(t)
             if fid in may_call:
                 ordn[fid] = ordn.get(fid, 0) + 1
-                rep.ob('R-WHO-CALLS-U', '%s;calls;%s#%d' % (f['id'], fid, ordn[fid]), f['id'] in may_call[fid],
+                rep.ob('R-WHO-CALLS-U', '%s;calls;%s#%d' % (f['id'], fid, ordn[fid]), re.sub(r'(::\{closure#\d+\})+$', '', f['id']) in may_call[fid],
                        'the unsigned 256-bit kernels may only be reached through the callers analysed here', site=span_str(blk.get('tspan')))
     rep.floor('R-WHO-CALLS-U', 7)
     rep.assume("no contract is left assumed: summary U' of u256_idiv_u128_special (*xh < y: (*xh, *xl) := (0, Q), returns r, xh*2^128 + xl = Q*y + r, 0 <= r < y), used by the dispatch proof, "
